@@ -877,6 +877,17 @@ class Assembler:
                 # does instead
                 want_ = extract._tok_strings(lp['head'])
                 hits_ = [i_ for i_, (kw_, ko_) in enumerate(loops) if [s.s(q) for q in range(kw_, ko_)] == want_]
+                if lp.get('body_has'):
+                    # .. and whose BODY contains the given text (tells apart two loops with the same header)
+                    wb_ = extract._tok_strings(lp['body_has'])
+                    mm2_ = s.match()
+                    def has_(i_):
+                        ko_ = loops[i_][1]
+                        body_ = [s.s(q) for q in range(ko_ + 1, mm2_[ko_])]
+                        return any(body_[a_:a_ + len(wb_)] == wb_ for a_ in range(len(body_) - len(wb_) + 1))
+                    hits_ = [i_ for i_ in hits_ if has_(i_)]
+                if lp.get('n', 0) >= len(hits_):
+                    hits_ = []
                 if not hits_:
                     if lp.get('optional'):
                         self.dropped_closure_contracts.append('%s: loop contract for `%s` (no such loop)' % (fnname, lp['head']))
@@ -885,7 +896,10 @@ class Assembler:
                                 self.moot.append(split_clause(x_)[0])
                         continue
                     raise ExtractError('lost anchor: no loop of fn %s reads `%s`' % (fnname, lp['head']))
-                lp = dict(lp, k=hits_[lp.get('n', 0)] if lp.get('n', 0) < len(hits_) else hits_[0])
+                lp = dict(lp, k=hits_[lp.get('n', 0)])
+            if lp.get('name'):
+                self._loop_names = getattr(self, '_loop_names', {})
+                self._loop_names[(id(fp), lp['name'])] = lp['k']
             kidx = lp['k']
             if kidx >= len(loops):
                 raise ExtractError('lost anchor: loop %d of fn %s (has %d loops)' % (kidx, fnname, len(loops)))
@@ -1078,19 +1092,33 @@ class Assembler:
                         last_start = q_ + 1
                     q_ += 1
                 ed.insert(s.t[last_start][1], block)
-            elif 'after' in pr:
-                ka, kb = fp.find_stmt(pr['after'], pr.get('n', 0))
-                ke = fp.stmt_end(kb)
-                ed.insert(s.t[ke][2], block)
-            elif 'before' in pr:
-                ka, kb = fp.find_stmt(pr['before'], pr.get('n', 0))
-                ed.insert(s.t[ka][1], block)
-            elif 'loop_end' in pr:
-                _kw, kopen = loops[pr['loop_end']]
-                ed.insert(s.t[s.match()[kopen]][1], block)
-            elif 'loop_start' in pr:
-                _kw, kopen = loops[pr['loop_start']]
-                ed.insert(s.t[kopen][2], block)
+            elif 'after' in pr or 'before' in pr:
+                try:
+                    ka, kb = fp.find_stmt(pr.get('after', pr.get('before')), pr.get('n', 0))
+                except ExtractError:
+                    if pr.get('optional'):
+                        continue     # a proof hint for code that is gone; what stands there now is judged without it
+                    raise
+                if 'after' in pr:
+                    ke = fp.stmt_end(kb)
+                    ed.insert(s.t[ke][2], block)
+                else:
+                    ed.insert(s.t[ka][1], block)
+            elif 'loop_end' in pr or 'loop_start' in pr or 'before_loop' in pr:
+                # the loop by ordinal, or by the `name` its loop contract carries (a proof for a loop whose contract was
+                # dropped as moot is dropped with it)
+                ref_ = pr.get('loop_end', pr.get('loop_start', pr.get('before_loop')))
+                if isinstance(ref_, str):
+                    ref_ = getattr(self, '_loop_names', {}).get((id(fp), ref_))
+                    if ref_ is None:
+                        continue
+                _kw, kopen = loops[ref_]
+                if 'before_loop' in pr:
+                    ed.insert(s.t[_kw][1], block)
+                elif 'loop_end' in pr:
+                    ed.insert(s.t[s.match()[kopen]][1], block)
+                else:
+                    ed.insert(s.t[kopen][2], block)
             else:
                 raise ValueError('proof splice without position in %s' % fnname)
             self.fired.add('4:proof-splice')
@@ -1135,7 +1163,7 @@ class Assembler:
             recv = ''
             if '.' in ab['call']:
                 # a method call `RECV.m(args)`: the receiver expression is handed over as an argument of its own
-                recv = ab['call'][:ab['call'].rindex('.')].strip() + ', '
+                recv = ab.get('recv_prefix', '') + ab['call'][:ab['call'].rindex('.')].strip() + ', '
             closes_now = s.is_p(kb + 1, ')')
             lead = (first + ', ' if first else '') + recv
             if closes_now:
